@@ -17,7 +17,7 @@ RULE = ("one case = one model (kind in {positive, complex}, num_visible 1..5 x n
         "parameter tensors drawn with independent scales from {1e-3..30} and random signs, "
         "rescaled until max|log p~| <= 600). Non-trivial: every weight and every bias of every "
         "network non-zero; distinct by sha256 of (kind, all parameter bytes).")
-REQUIRED = ["logp_entries_compared", "psi_entries_compared", "oned_calls_compared",
+REQUIRED = ["states_used_before_with_other_parameters", "held_results_rechecked", "logp_entries_compared", "psi_entries_compared", "oned_calls_compared",
             "metamorphic_checks", "float_sanitizer_ops"]
 ANCHOR_FILES = ["qucumber/nn_states/wavefunction.py", "qucumber/nn_states/positive_wavefunction.py",
                 "qucumber/nn_states/complex_wavefunction.py", "qucumber/rbm/binary_rbm.py"]
@@ -81,7 +81,15 @@ def _shape_ok(ctx, what, t, shape):
 def run_case(case, ctx):
     rng, am, ph = build(case)
     kind, nv, nh = case["kind"], case["nv"], case["nh"]
-    st = gen.make_state(kind, am, ph)
+    if case["rep"] % 2:
+        def warm(s_):
+            sp_ = s_.generate_hilbert_space()
+            s_.psi(sp_), s_.probability(sp_), s_.normalization(sp_), s_.phase(sp_[0]), s_.amplitude(sp_)
+        st, how = gen.make_state_used(rng, kind, am, ph, warm)
+        ctx.count("states_used_before_with_other_parameters")
+        ctx.seen("parameter_change_idioms", how)
+    else:
+        st = gen.make_state(kind, am, ph)
     V = R.space(nv)
     sp = ctx.lib("generate_hilbert_space", st.generate_hilbert_space)
     if not _shape_ok(ctx, "generate_hilbert_space", sp, V.shape):
@@ -209,6 +217,12 @@ def run_case(case, ctx):
         if not torch.equal(v, sp[i]):
             ctx.violation("input-mutated", "1-D call modified its argument", tags={"state": kind})
 
+    # results returned earlier must not be clobbered by later calls (no shared work buffers)
+    ctx.count("held_results_rechecked", 4)
+    if not (np.array_equal(gen.dec(psi), psi_l) and np.array_equal(amp.numpy(), amp_l) and np.array_equal(prob.numpy(), prob_l)
+            and np.array_equal(pha.numpy(), pha_l)):
+        ctx.violation("earlier-result-clobbered", "a tensor returned by psi/amplitude/phase/probability changed during later calls",
+                      tags={"state": kind})
     # (6) metamorphic: modulus depends only on the amplitude network, phase only on the phase network
     if kind == "complex":
         am2, ph2 = gen.draw_model(rng, kind, nv, nh, scales=gen.SCALES_MODERATE)
